@@ -220,8 +220,12 @@ func c13Variants(rng *gen.Rng, i int) ([]c13Variant, [][]byte) {
 		if nm := firstSubName(B); nm != "" {
 			w2 := add("in-place:own-subroutine-named-like-one-inside-the-stored-pattern", -1, nil,
 				cmdFind(wrapPS(grp, gen.SubDef{Name: "zq9", Body: []gen.Node{gen.Lit{S: "x"}}}, gen.Loop{Min: 0, Max: 1, Form: "maybe", Body: gen.SubCall{Name: "zq9"}})...))
-			add("own-subroutine-named-like-one-inside-the-stored-pattern", w2, []gen.Global{g},
+			k3 := add("own-subroutine-named-like-one-inside-the-stored-pattern", w2, []gen.Global{g},
 				cmdFind(wrapPS(gen.GlobalRef{Name: "gx"}, gen.SubDef{Name: nm, Body: []gen.Node{gen.Lit{S: "x"}}}, gen.Loop{Min: 0, Max: 1, Form: "maybe", Body: gen.SubCall{Name: nm}})...))
+			// judged against the renamed in-place form only (which the reference judges): the reference matcher keeps one
+			// table of subroutine names per command and would resolve a call INSIDE the stored pattern to the command's
+			// subroutine of the same name
+			vs[k3].src = gen.RenderProgram(vs[k3].prog)
 		}
 	}
 	// an unrelated stored pattern that carries the name of the command's inline subroutine: the local declaration
@@ -313,7 +317,7 @@ func C13(r *drv.Run) {
 	if !quick(r) {
 		nbody, nhist = 20000, 2500
 	}
-	r.Rule = "(1) capture-free bodies B (with or, in, not in, loops, nested and recursive subroutines) in contexts prefix/suffix, inside a loop, inside an alternation: B in place == {B}=s (+0..2 calls) == set g to pattern B referenced 1..3 times, also referenced before AND inside a counted loop (exactly 2 / at least 2 / between 3 and 4), first mentioned inside a zero-count loop and then used, a stored pattern built on another one whose name is defined again before the command, an inline subroutine of the command named like one inside the stored pattern, every inline-subroutine variant again next to an unrelated stored pattern of the same name, an inline subroutine declared inside a loop and called after it, a stored pattern with a predicate used inside another stored pattern, stored patterns whose names differ only in letter case, a name defined again in terms of its own previous definition (== the two-name form == written out), a stored pattern whose body declares an inline subroutine of the stored pattern's own name, all also judged by the reference matcher; (2) a three-command source sharing one definition == concatenation of its commands compiled alone; a source that defines the name AGAIN with another body between its commands == concatenation of each command compiled alone with the definition in force where it stands; (3) recorded sequential histories of Compile/Run calls in random order over a pool of sources (including sources whose compilation fails in the parser, the regex sub-parser, the generator and the type checker) and texts, checked offline against the pure-function model: each call's result digest equals the digest the same call produced alone in a fresh worker process; (4) canonical bytecode digest (loop ids normalised) unchanged by runs and equal across recompilations. Non-trivial = variant pair with >= 1 match compared / history call whose isolated result has >= 1 match; distinct by (variant source, text) and (history, call index)."
+	r.Rule = "(1) capture-free bodies B (with or, in, not in, loops, nested and recursive subroutines) in contexts prefix/suffix, inside a loop, inside an alternation: B in place == {B}=s (+0..2 calls) == set g to pattern B referenced 1..3 times, also referenced before AND inside a counted loop (exactly 2 / at least 2 / between 3 and 4), first mentioned inside a zero-count loop and then used, a stored pattern built on another one whose name is defined again before the command, an inline subroutine of the command named like one inside the stored pattern, every inline-subroutine variant again next to an unrelated stored pattern of the same name, an inline subroutine declared inside a loop and called after it, a stored pattern with a predicate used inside another stored pattern, stored patterns whose names differ only in letter case, a name defined again in terms of its own previous definition (== the two-name form == written out), a stored pattern whose body declares an inline subroutine of the stored pattern's own name, all also judged by the reference matcher; a self-referencing subroutine driven 700 (thorough: 4 100 and 10 050) levels deep by an anchored input, inline and as a stored pattern; (2) a three-command source sharing one definition == concatenation of its commands compiled alone; a source that defines the name AGAIN with another body between its commands == concatenation of each command compiled alone with the definition in force where it stands; (3) recorded sequential histories of Compile/Run calls in random order over a pool of sources (including sources whose compilation fails in the parser, the regex sub-parser, the generator and the type checker) and texts, checked offline against the pure-function model: each call's result digest equals the digest the same call produced alone in a fresh worker process; (4) canonical bytecode digest (loop ids normalised) unchanged by runs and equal across recompilations. Non-trivial = variant pair with >= 1 match compared / history call whose isolated result has >= 1 match; distinct by (variant source, text) and (history, call index)."
 	r.Assumptions = []string{
 		"bodies are capture-free, as the property says",
 		"a body that itself declares subroutines is not duplicated textually (two declarations of one name are rejected by design)",
@@ -332,6 +336,7 @@ func C13(r *drv.Run) {
 		return &drv.Item{Case: c, Check: func(res *wire.Result) { c13CheckVariants(r, vs, srcs, texts, &c, res, i) }}
 	})
 	c13Histories(r, nhist)
+	c13Deep(r)
 	if r.NViolations() == 0 {
 		expensiveFloor(r)
 		for _, k := range []string{"pairs_global-pattern", "pairs_inline-subroutine", "pairs_global-pattern-thrice", "pairs_global-pattern-in-loop", "pairs_global-pattern-before-and-inside-counted-loop", "pairs_inline-subroutine-before-and-inside-counted-loop", "concat_checked", "concat_redefinition-between-commands", "history_calls_checked", "reloc_StartSubroutine", "reloc_CallSubroutine", "reloc_Branch"} {
